@@ -25,6 +25,8 @@ type Headers struct {
 	endStream  bool
 	endHeaders bool
 	priority   bool
+	// exclusive is the E bit of the priority section.
+	exclusive  bool
 	rawHeaders []byte // this field is used to store uncompleted headers.
 }
 
@@ -35,6 +37,7 @@ func (h *Headers) Reset() {
 	h.endStream = false
 	h.endHeaders = false
 	h.priority = false
+	h.exclusive = false
 	h.rawHeaders = h.rawHeaders[:0]
 }
 
@@ -45,6 +48,8 @@ func (h *Headers) CopyTo(h2 *Headers) {
 	h2.weight = h.weight
 	h2.endStream = h.endStream
 	h2.endHeaders = h.endHeaders
+	h2.priority = h.priority
+	h2.exclusive = h.exclusive
 	h2.rawHeaders = append(h2.rawHeaders[:0], h.rawHeaders...)
 }
 
@@ -93,6 +98,17 @@ func (h *Headers) SetStream(stream uint32) {
 	h.stream = stream
 }
 
+// Exclusive reports whether the stream dependency of the priority section is
+// exclusive.
+func (h *Headers) Exclusive() bool {
+	return h.exclusive
+}
+
+// SetExclusive makes the stream dependency of the priority section exclusive.
+func (h *Headers) SetExclusive(value bool) {
+	h.exclusive = value
+}
+
 func (h *Headers) Weight() byte {
 	return h.weight
 }
@@ -130,6 +146,7 @@ func (h *Headers) Deserialize(frh *FrameHeader) error {
 		}
 		h.priority = true
 		h.stream = http2utils.BytesToUint32(payload) & (1<<31 - 1)
+		h.exclusive = payload[0]&0x80 != 0
 		h.weight = payload[4]
 		payload = payload[5:]
 	}
@@ -160,6 +177,10 @@ func (h *Headers) Serialize(frh *FrameHeader) {
 		h.rawHeaders = append(h.rawHeaders, 0, 0, 0, 0, 0)
 		copy(h.rawHeaders[5:], h.rawHeaders)
 		http2utils.Uint32ToBytes(h.rawHeaders[0:4], h.stream)
+		if h.exclusive {
+			h.rawHeaders[0] |= 0x80
+		}
+
 		h.rawHeaders[4] = h.weight
 	}
 
